@@ -204,6 +204,7 @@ def cfgOfJson (j : Json) : Cfg :=
     esRecycle := b "esRecycle" true, esFailureFinishesOp := b "esFailureFinishesOp" true,
     createKeepsInfeasible := b "createKeepsInfeasible" true,
     esAnswerFinishesOp := b "esAnswerFinishesOp" true,
-    resumesAbandonedOp := b "resumesAbandonedOp" true }
+    resumesAbandonedOp := b "resumesAbandonedOp" true,
+    esResumesActive := b "esResumesActive" true }
 
 end VizierModel.Driver.SvcJson
